@@ -8,6 +8,7 @@
 // "C10v" : executes one scenario + one concrete fault set (the unit of replay
 //          and shrinking).
 #include <cmath>
+#include <set>
 #include "../subrun.h"
 #include "kill_common.h"
 
@@ -288,9 +289,24 @@ static Json::Value execVariant(bool wantAccesses) {
                          f.get("cg", "*").asString(),
                          f.get("tick", -1).asInt()});
     }
+    // an emptied file belongs to the incarnation it was rendered for: a
+    // cgroup that the plan removes or re-creates comes back with whatever its
+    // new specification says
+    std::set<std::string> replaced;
+    auto noteOp = [&](const Json::Value& op) {
+      std::string o = op.get("op", "").asString();
+      if (o == "recreate" || o == "rm" || o == "mk")
+        replaced.insert(o == "mk" ? op["v"].get("path", "").asString()
+                                  : op.get("cg", "").asString());
+    };
+    for (const auto& op : R.plan["ops"])
+      noteOp(op);
+    for (const auto& ed : R.plan["edits"])
+      noteOp(ed["op"]);
     for (const auto& c : R.plan["world"]["cgroups"])
       for (const auto& e : c["empty"])
-        rules.push_back({e.asString(), c["path"].asString(), -1});
+        if (!replaced.count(c["path"].asString()))
+          rules.push_back({e.asString(), c["path"].asString(), -1});
     if (!rules.empty()) {
       for (const auto& e : R.log) {
         if (e.kind != "probe" || e.a == "system")
